@@ -2,126 +2,119 @@ import Sozu.Router.Model
 import Sozu.Router.Spec
 import Sozu.Trie.Lemmas
 /-
-Helper lemmas for the router: the selection loop of `lookup` picks the
-candidate of strictly largest `crank` (the priority the loop really
-implements), wherever it stands in the leaf's rule list.
+Helper lemmas for the router: the (rank-based) selection loop of `lookup`
+returns a candidate of maximal documented rank, whatever the order of the
+leaf's rule list; order-preservation facts for the pre/post lists.
 -/
 set_option linter.unusedSimpArgs false
 set_option linter.unusedVariables false
 namespace Sozu.Router
 open Sozu Sozu.Trie
 
-/-- the priority the selection loop of `lookup` *actually* gives a candidate
-    (0 = does not match): Regex/Equals with a specific method returns at once;
-    Regex/Equals with any method sets `prefix_length = |path|`; a prefix of
-    length `n` needs `n >= prefix_length`. -/
-def crank (o : Oracle) (path method : Bytes) (r : Rule3) : Nat :=
-  match r.1.matches o path, methodMatches r.2.1 method with
-  | .regex, .equals => path.length + 2
-  | .equals, .equals => path.length + 2
-  | .regex, .all => path.length + 1
-  | .equals, .all => path.length + 1
-  | .pfx n, .equals => n + 1
-  | .pfx n, .all => n + 1
-  | _, _ => 0
+abbrev Rank := Nat × Nat × Nat
 
-theorem isPrefixOf_length {p s : Bytes} (h : isPrefixOf p s = true) : p.length ≤ s.length := by
-  simp only [isPrefixOf, beq_iff_eq] at h
-  have := congrArg List.length h
-  simp at this
+theorem rankGt_irrefl (a : Rank) : rankGt a a = false := by
+  simp [rankGt]
+
+theorem rankGt_trans {a b c : Rank} (h1 : rankGt a b = true) (h2 : rankGt b c = true) : rankGt a c = true := by
+  obtain ⟨a1, a2, a3⟩ := a; obtain ⟨b1, b2, b3⟩ := b; obtain ⟨c1, c2, c3⟩ := c
+  simp only [rankGt, Bool.or_eq_true, Bool.and_eq_true, decide_eq_true_eq, beq_iff_eq, gt_iff_lt] at *
   omega
 
-theorem matches_pfx_le (o : Oracle) (r : PathRule) (path : Bytes) (n : Nat)
-    (h : r.matches o path = PathRes.pfx n) : n ≤ path.length := by
-  cases r with
-  | pfx p =>
-    simp only [PathRule.matches] at h
-    split at h
-    · next hp => cases h; exact isPrefixOf_length hp
-    · cases h
-  | regex s => simp only [PathRule.matches] at h; split at h <;> cases h
-  | equals s => simp only [PathRule.matches] at h; split at h <;> cases h
+theorem rank_eq_of_not_gt {a b : Rank} (h1 : rankGt a b = false) (h2 : rankGt b a = false) : a = b := by
+  obtain ⟨a1, a2, a3⟩ := a; obtain ⟨b1, b2, b3⟩ := b
+  have h1' : ¬ rankGt (a1, a2, a3) (b1, b2, b3) = true := by simp [h1]
+  have h2' : ¬ rankGt (b1, b2, b3) (a1, a2, a3) = true := by simp [h2]
+  simp only [rankGt, Bool.or_eq_true, Bool.and_eq_true, decide_eq_true_eq, beq_iff_eq, gt_iff_lt] at h1' h2'
+  have e1 : a1 = b1 := by omega
+  have e2 : a2 = b2 := by omega
+  have e3 : a3 = b3 := by omega
+  subst e1 e2 e3; rfl
 
-theorem crank_le (o : Oracle) (path method : Bytes) (r : Rule3) : crank o path method r ≤ path.length + 2 := by
-  unfold crank
-  split <;> try omega
-  all_goals (next n h _ => have := matches_pfx_le o _ _ _ h; omega)
+theorem rankGt_eq_specLt (a b : Rank) : rankGt a b = Spec.rankLt b a := by
+  obtain ⟨a1, a2, a3⟩ := a; obtain ⟨b1, b2, b3⟩ := b
+  have e1 : (a1 == b1) = (b1 == a1) := by
+    rw [Bool.eq_iff_iff, beq_iff_eq, beq_iff_eq]; exact eq_comm
+  have e2 : (a2 == b2) = (b2 == a2) := by
+    rw [Bool.eq_iff_iff, beq_iff_eq, beq_iff_eq]; exact eq_comm
+  simp only [rankGt, Spec.rankLt, e1, e2, gt_iff_lt]
 
-theorem sel_pre (o : Oracle) (path method : Bytes) (K : Nat) :
-    K ≤ path.length + 2 →
-    ∀ (l : List Rule3) (p : Nat) (m : Option Route), p + 1 ≤ K → (∀ c ∈ l, crank o path method c < K) →
-      ∃ p' m', l.foldl (selStep o path method) (.cont p m) = .cont p' m' ∧ p' + 1 ≤ K := by
-  intro hK l
+/-- the loop's rank is the Spec's rank of the rule seen as a tree frontend -/
+theorem ruleRank_eq_spec (o : Oracle) (path method : Bytes) (r : Rule3) (host : Bytes) :
+    ruleRank o path method r = Spec.rank o ⟨2, host, r.1, r.2.1, r.2.2⟩ path method := by
+  simp only [ruleRank, Spec.rank]
+  cases methodMatches r.2.1 method <;> cases r.1.matches o path <;> simp
+
+/-- what the selection loop has established after scanning the rules `l` -/
+def Good (o : Oracle) (path method : Bytes) (l : List Rule3) (s : Sel) : Prop :=
+  (s.m = none ∧ ∀ c ∈ l, ruleRank o path method c = none) ∨
+  (∃ r ∈ l, s.m = some r.2.2 ∧ ruleRank o path method r = some s.best ∧
+      ∀ c ∈ l, ∀ kc, ruleRank o path method c = some kc → rankGt kc s.best = false)
+
+theorem good_step (o : Oracle) (path method : Bytes) (l : List Rule3) (s : Sel) (c : Rule3)
+    (h : Good o path method l s) : Good o path method (l ++ [c]) (selStep o path method s c) := by
+  unfold selStep
+  cases hc : ruleRank o path method c with
+  | none =>
+    simp only []
+    rcases h with ⟨hm, hall⟩ | ⟨r, hr, hm, hrk, hall⟩
+    · left; refine ⟨hm, ?_⟩
+      intro x hx; simp only [List.mem_append, List.mem_singleton] at hx
+      rcases hx with hx | rfl
+      · exact hall x hx
+      · exact hc
+    · right; refine ⟨r, by simp [hr], hm, hrk, ?_⟩
+      intro x hx kc hk; simp only [List.mem_append, List.mem_singleton] at hx
+      rcases hx with hx | rfl
+      · exact hall x hx kc hk
+      · rw [hc] at hk; cases hk
+  | some rank =>
+    simp only []
+    rcases h with ⟨hm, hall⟩ | ⟨r, hr, hm, hrk, hall⟩
+    · simp only [hm, Option.isNone_none, Bool.true_or, ↓reduceIte]
+      right; refine ⟨c, by simp, rfl, hc, ?_⟩
+      intro x hx kc hk; simp only [List.mem_append, List.mem_singleton] at hx
+      rcases hx with hx | rfl
+      · rw [hall x hx] at hk; cases hk
+      · rw [hc] at hk; cases hk; exact rankGt_irrefl _
+    · simp only [hm, Option.isNone_some, Bool.false_or]
+      by_cases hg : rankGt rank s.best = true
+      · simp only [hg, ↓reduceIte]
+        right; refine ⟨c, by simp, rfl, hc, ?_⟩
+        intro x hx kc hk; simp only [List.mem_append, List.mem_singleton] at hx
+        rcases hx with hx | rfl
+        · have := hall x hx kc hk
+          cases hgt : rankGt kc rank with
+          | false => rfl
+          | true => rw [rankGt_trans hgt hg] at this; cases this
+        · rw [hc] at hk; cases hk; exact rankGt_irrefl _
+      · simp only [hg, Bool.false_eq_true, ↓reduceIte]
+        right; refine ⟨r, by simp [hr], hm, hrk, ?_⟩
+        intro x hx kc hk; simp only [List.mem_append, List.mem_singleton] at hx
+        rcases hx with hx | rfl
+        · exact hall x hx kc hk
+        · rw [hc] at hk; cases hk; simpa using hg
+
+theorem good_fold (o : Oracle) (path method : Bytes) (l : List Rule3) :
+    ∀ (l₀ : List Rule3) (s : Sel), Good o path method l₀ s →
+      Good o path method (l₀ ++ l) (l.foldl (selStep o path method) s) := by
   induction l with
-  | nil => intro p m hp _; exact ⟨p, m, rfl, hp⟩
+  | nil => intro l₀ s h; simpa using h
   | cons c t ih =>
-    intro p m hp hall
-    have hc := hall c (by simp)
-    have hle := crank_le o path method c
-    have ht : ∀ c ∈ t, crank o path method c < K := fun x hx => hall x (by simp [hx])
-    simp only [List.foldl_cons]
-    unfold crank at hc
-    simp only [selStep]
-    cases h1 : c.1.matches o path <;> cases h2 : methodMatches c.2.1 method <;> simp only [h1, h2] at hc ⊢
-    all_goals first
-      | exact ih _ _ hp ht
-      | exact ih _ _ (by omega) ht
-      | (exfalso; omega)
-      | (split <;> first | exact ih _ _ hp ht | exact ih _ _ (by omega) ht)
+    intro l₀ s h
+    have := ih (l₀ ++ [c]) _ (good_step o path method l₀ s c h)
+    simpa [List.append_assoc] using this
 
-
-theorem foldl_ret (o : Oracle) (path method : Bytes) (r : Route) (l : List Rule3) :
-    l.foldl (selStep o path method) (.ret r) = .ret r := by
-  induction l with
-  | nil => rfl
-  | cons c t ih => simpa [List.foldl_cons, selStep] using ih
-
-theorem sel_post (o : Oracle) (path method : Bytes) (K : Nat) (r : Route) (hK1 : 1 ≤ K) (hK : K ≤ path.length + 1) :
-    ∀ (l : List Rule3), (∀ c ∈ l, crank o path method c < K) →
-      l.foldl (selStep o path method) (.cont (K - 1) (some r)) = .cont (K - 1) (some r) := by
-  intro l
-  induction l with
-  | nil => intro _; rfl
-  | cons c t ih =>
-    intro hall
-    have hc := hall c (by simp)
-    have ht : ∀ c ∈ t, crank o path method c < K := fun x hx => hall x (by simp [hx])
-    simp only [List.foldl_cons]
-    unfold crank at hc
-    simp only [selStep]
-    cases h1 : c.1.matches o path <;> cases h2 : methodMatches c.2.1 method <;> simp only [h1, h2] at hc ⊢
-    all_goals first
-      | exact ih ht
-      | (exfalso; omega)
-      | (split <;> first | exact ih ht | (exfalso; omega))
-
-/-- the candidate with the strictly largest `crank` wins, wherever it stands -/
-theorem select_unique_max (o : Oracle) (path method : Bytes) (l₁ l₂ : List Rule3) (r : Rule3)
-    (hr : 0 < crank o path method r)
-    (h₁ : ∀ c ∈ l₁, crank o path method c < crank o path method r)
-    (h₂ : ∀ c ∈ l₂, crank o path method c < crank o path method r) :
-    selectLeaf o (l₁ ++ r :: l₂) path method = some r.2.2 := by
-  have hle := crank_le o path method r
-  obtain ⟨p, m, hpre, hp⟩ := sel_pre o path method _ hle l₁ 0 none (by omega) h₁
-  simp only [selectLeaf, List.foldl_append, List.foldl_cons, hpre]
-  have hcr : crank o path method r = crank o path method r := rfl
-  revert hp h₂ hr hle
-  generalize hK : crank o path method r = K
-  intro hr hle hp h₂
-  unfold crank at hK
-  simp only [selStep]
-  cases h1 : r.1.matches o path <;> cases h2 : methodMatches r.2.1 method <;> simp only [h1, h2] at hK ⊢
-  all_goals first
-    | (rw [foldl_ret]; rfl)
-    | (exfalso; omega)
-    | (have hpost := sel_post o path method K r.2.2 (by omega) (by omega) l₂ hle
-       have e : path.length = K - 1 := by omega
-       rw [e, hpost]; rfl)
-    | (next n =>
-       have hn := matches_pfx_le o _ _ _ h1
-       have hpost := sel_post o path method K r.2.2 (by omega) (by omega) l₂ hle
-       have e : n = K - 1 := by omega
-       have hge : n ≥ p := by omega
-       rw [if_pos hge, e, hpost]; rfl)
+/-- the selection loop returns the route of a candidate of maximal rank; it
+    returns nothing only when no rule matches -/
+theorem select_good (o : Oracle) (path method : Bytes) (l : List Rule3) :
+    (selectLeaf o l path method = none ∧ ∀ c ∈ l, ruleRank o path method c = none) ∨
+    (∃ r ∈ l, ∃ k, selectLeaf o l path method = some r.2.2 ∧ ruleRank o path method r = some k ∧
+        ∀ c ∈ l, ∀ kc, ruleRank o path method c = some kc → rankGt kc k = false) := by
+  have h := good_fold o path method l [] ⟨(0, 0, 0), none⟩ (Or.inl ⟨rfl, by simp⟩)
+  simp only [List.nil_append] at h
+  rcases h with ⟨hm, hall⟩ | ⟨r, hr, hm, hrk, hall⟩
+  · left; exact ⟨hm, hall⟩
+  · right; exact ⟨r, hr, _, hm, hrk, hall⟩
 
 end Sozu.Router
